@@ -236,3 +236,190 @@ def single_suite(ctx, oracles, gen_kwargs_list, count, items=None):
     ctx.extra['glue_stats'] = stats
     ctx.extra['retrieve_cases'] = len(retrieve_cases)
     common.compare_with_model(ctx, retrieve_cases)
+
+
+# ---- the whole stack on the real grammars: callbacks' category table + search, id for id -------
+
+import pyxrt  # noqa: E402
+from depccg.types import Token  # noqa: E402
+import wire  # noqa: E402
+from wire import enc_cat, enc_str  # noqa: E402
+
+def full_stack_problem(rng, lang, m=1):
+    """m sentences over the real grammar sharing one category list: lexical categories of licensed
+    derivations + distractors"""
+    import functools
+    import grammar_common
+    import tree_common as T
+    from depccg.grammar import en, ja
+    mod = en if lang == 'en' else ja
+    bfun = mod.apply_binary_rules
+    ufun = functools.partial(mod.apply_unary_rules, unary_rules=grammar_common.unary_table(lang))
+    golds = [T.licensed_tree(rng, lang, rng.randint(0, 5), dict(awkward=0.0)) for _ in range(m)]
+    pairs = T.lexicon(lang)
+    lex = []
+    for gold in golds:
+        for l in gold.leaves:
+            if l.cat not in lex:
+                lex.append(l.cat)
+    for _ in range(rng.randint(0, 4)):
+        c = rng.choice(rng.choice(pairs))
+        if c not in lex:
+            lex.append(c)
+    rng.shuffle(lex)
+    base = S.Problem()
+    base.T = len(lex)
+    base.penalty = rng.choice([0, 6, 13])
+    base.nbest = rng.choice([1, 1, 2, 4])
+    base.max_step = 3000
+    sents = []
+    for si, gold in enumerate(golds):
+        p = S.Problem.from_json(base.to_json())
+        leaves = [l.cat for l in gold.leaves]
+        p.n = len(leaves)
+        lo = -rng.choice([300, 1500])
+        p.tags = [[rng.randint(lo, 0) for _ in range(p.T)] for _ in range(p.n)]
+        for i, c in enumerate(leaves):
+            p.tags[i][lex.index(c)] = rng.randint(-40, 0)
+        p.deps = [[rng.randint(lo, 0) for _ in range(p.n + 1)] for _ in range(p.n)]
+        sents.append((p, [Token.of_word(f'w{si}_{i}') for i in range(p.n)]))
+    roots = [g.cat for g in golds] + [rng.choice(rng.choice(pairs)) for _ in range(rng.randint(0, 2))]
+    roots = [c for i, c in enumerate(roots) if c not in roots[:i]]
+    return base, sents, lex, roots, bfun, ufun
+
+
+def full_stack_case(rng, lang, m=1):
+    base, sents, cats, root_cats, bfun, ufun = full_stack_problem(rng, lang, m)
+    calls = []
+
+    def rec_b(x, y):
+        rs = bfun(x, y)
+        calls.append(('b', x, y, list(rs)))
+        return rs
+
+    def rec_u(x):
+        rs = ufun(x)
+        calls.append(('u', x, None, list(rs)))
+        return rs
+    pops = pyxrt.trace_pops(True)
+    try:
+        res = native.setup()['parsing'].run([t for _, t in sents], [G.scoring(p) for p, _ in sents], list(cats), list(root_cats),
+                                            rec_b, rec_u, unary_penalty=base.penalty / S.SCALE, beta=base.beta, use_beta=base.use_beta,
+                                            pruning_size=base.pruning, nbest=base.nbest, max_step=base.max_step, max_length=250,
+                                            processes=1, max_chunk_size=1000)
+        real_pops = [(1 if f else 0, S.to_int(i), S.to_int(o), s, l, c, h, rr) for f, i, o, s, l, c, h, rr in pops]
+    finally:
+        pyxrt.trace_pops(False)
+
+    def enc_res(rs):
+        return f'{len(rs)} ' + ' '.join(f'{enc_cat(q.cat)} {1 if q.head_is_left else 0} {enc_str(q.op_string)} {enc_str(q.op_symbol)}'
+                                        for q in rs)
+    parts = ['gluetable', str(base.T)] + [enc_cat(c) for c in cats] + [str(len(root_cats))] + [enc_cat(c) for c in root_cats]
+    parts.append(str(len(calls)))
+    for k, x, y, rs in calls:
+        parts.append(f'b {enc_cat(x)} {enc_cat(y)} {enc_res(rs)}' if k == 'b' else f'u {enc_cat(x)} {enc_res(rs)}')
+    line = ' '.join(' '.join(parts).split())
+    return [p for p, _ in sents], cats, calls, real_pops, res, line
+
+
+def decode_table(out):
+    ts = out.split(' ')
+    assert ts[0] == 'ok', out[:200]
+    i = 1
+    K = int(ts[i]); i += 1
+    table = []
+    for _ in range(K):
+        c, i = wire.dec_cat_at(ts, i); table.append(c)
+    nr = int(ts[i]); i += 1
+    roots = [int(x) for x in ts[i:i + nr]]; i += nr
+    nc = int(ts[i]); i += 1
+    rows = []
+    for _ in range(nc):
+        kind = ts[i]; i += 1
+        if kind == 'b':
+            x, y = int(ts[i]), int(ts[i + 1]); i += 2
+        else:
+            x, y = int(ts[i]), None; i += 1
+        n = int(ts[i]); i += 1
+        ids = [int(v) for v in ts[i:i + n]]; i += n
+        rows.append((kind, x, y, ids))
+    return table, roots, rows
+
+
+
+def full_stack_suite(ctx, count, batch=False):
+    """real `depccg.parsing.run` with the real English / Japanese rule functions, recording the rule
+    function calls; the Lean model of the callback side (GlueRun: category table, cache rows) is
+    replayed on the recorded calls, the id-level grammar it yields is given to the Lean search, and
+    the model's pop trace must equal the real one item for item (category ids included). With
+    batch=True a call parses 2..4 sentences, which share the table and the rule cache."""
+    from driver import run_lines
+    rng = ctx.rng
+    if not ensure_native(ctx):
+        return
+    if ctx.lean is not None and not ctx.lean.driver_ok:
+        return
+    cases = []
+    tries = 0
+    while len(cases) < count and tries < 3 * count:
+        tries += 1
+        try:
+            c = full_stack_case(rng, 'ja' if tries % 3 == 0 else 'en', rng.randint(2, 4) if batch else 1)
+        except Exception as e:
+            ctx.fail(f'depccg.parsing.run raised {type(e).__name__}: {e}', {'suite': 'full-stack'},
+                     fingerprint=['full-stack-raise', type(e).__name__])
+            continue
+        if c and len(c[3]) <= 4000:
+            cases.append(c)
+    outs = run_lines([c[5] for c in cases])
+    lines2, keep = [], []
+    for (ps, cats, calls, real_pops, res, line), out in zip(cases, outs):
+        ctx.evaluations += 1
+        desc = dict(sentences=[p.to_json() for p in ps], categories=[str(c) for c in cats], calls=len(calls))
+        if not out.startswith('ok'):
+            ctx.disagree('gluetable', desc, out[:200], 'a table built by the real callbacks', line=line[:2000])
+            continue
+        table, roots, rows = decode_table(out)
+        gbin, gun = {}, {}
+        for (k, x, y, ids), (_, _, _, rs) in zip(rows, calls):
+            if k == 'b':
+                gbin[(x, y)] = [(cid, bool(q.head_is_left)) for cid, q in zip(ids, rs)]
+            else:
+                gun[x] = list(ids)
+        idx = []
+        for p in ps:
+            p2 = S.Problem.from_json(p.to_json())
+            p2.roots, p2.bin, p2.un = roots, gbin, gun
+            idx.append(len(lines2))
+            lines2.append(S.model_line(p2))
+        keep.append((idx, real_pops, res, table, desc))
+    outs2 = run_lines(lines2)
+    for idx, real_pops, res, table, desc in keep:
+        ms = [S.parse_model_output(outs2[i]) for i in idx]
+        mpops = [q for m in ms for q in m['pops']]
+        ctx.traces += 1
+        if mpops != list(real_pops):
+            k = 0
+            while k < min(len(mpops), len(real_pops)) and mpops[k] == real_pops[k]:
+                k += 1
+            ctx.disagree('full-stack', desc, f"pop {k}: {mpops[k] if k < len(mpops) else None}",
+                         f"pop {k}: {real_pops[k] if k < len(real_pops) else None}",
+                         note='pop traces (with the category ids the real callbacks assigned) differ')
+            continue
+        ok = True
+        for m, trees in zip(ms, res):
+            failed = len(trees) == 1 and trees[0].score == -float('inf')
+            if (m['status'] == 1) != failed:
+                ctx.disagree('full-stack', desc, f"status {m['status']}", 'failed' if failed else 'parsed')
+                ok = False
+                break
+            if not failed:
+                got = [S.to_int(t.score) for t in trees]
+                want = [int(q.split(' ')[1]) for q in m['results']]
+                if got != want:
+                    ctx.disagree('full-stack', desc, str(want), str(got), note='result scores differ')
+                    ok = False
+                    break
+        if ok and any(m['status'] == 0 for m in ms):
+            ctx.nontrivial_add(json.dumps(desc, sort_keys=True)[:3000])
+    ctx.extra['full_stack_cases' + ('_batch' if batch else '')] = len(keep)
